@@ -23,16 +23,17 @@ LEAN_MODULE = 'CC.Properties.C19'
 LEVEL = 'proof'
 THEOREMS = [
     'CC.C19_dup_id_network', 'CC.C19_dup_id', 'CC.C19_dup_id_positions', 'CC.C19_dup_id_exception',
-    'CC.C19_floating_ground', 'CC.C19_floating_ground_circuit', 'CC.C19_multi_ground', 'CC.C19_multi_ground_exception',
+    'CC.C19_floating_ground', 'CC.C19_floating_ground_circuit', 'CC.C19_multi_ground', 'CC.C19_multi_ground_exception', 'CC.C19_mk_accepts',
     'CC.C19_negative_table', 'CC.C19_guards_are_sign_guards', 'CC.C19_rated_voltage_positive', 'CC.C19_fundamental_positive', 'CC.C19_only_rated_voltage_strict',
     'CC.C19_negative', 'CC.C19_negative_first', 'CC.C19_zero_passes_guards', 'CC.C19_zero_accepted',
     'CC.C19_any_bad_entry_rejects', 'CC.C19_first_bad_entry', 'CC.C19_unknown_kind', 'CC.C19_missing_field',
     'CC.C19_missing_value_key', 'CC.bindParams_missing', 'CC.bindParams_lookup',
-    'CC.C19_unknown_wave', 'CC.C19_wave_checked', 'CC.C19_unknown_wave_construct',
+    'CC.C19_unknown_wave', 'CC.C19_unknown_wave_generated', 'CC.C19_wave_checked', 'CC.C19_unknown_wave_construct',
     'CC.C19_unknown_query', 'CC.C19_unknown_query_potential', 'CC.C19_unknown_query_wrappers', 'CC.C19_unknown_query_guarded',
     'CC.C19_stored_unaltered', 'CC.C19_param_stored',
 ]
-OPEN_STATEMENTS = []
+OPEN_STATEMENTS = ['no Lean statement (oracle only): unknown-id behaviour of TimeDomainSolution / FrequencyDomainSolution / TransientSolution accessors beyond the generated guard table (C19_unknown_query_guarded), get_power of the transient class, load_network fault classes, create_schematic fault classes',
+                   'C19_unknown_wave and conjuncts 3-4 of C19_unknown_query_guarded are about hand-written model functions (periodicFunction, requireComponent, requireNode); the generated lookup is C08_lookup (linked by C19_unknown_wave_generated), the _require_* bodies are compared verbatim by the translator']
 ASSUMPTIONS = [
     'Python keyword binding (missing / unexpected keyword ⇒ TypeError) and comparison of a str or complex with a number (⇒ TypeError) are modelled as such',
     'the time-domain, frequency-domain and transient solution classes, load_network and create_schematic are not modelled: their fault classes are checked on the implementation only',
